@@ -79,6 +79,7 @@ def runSeeded (G : Graph S) (κ : Nat → Bool) (fuel : Nat) : List (Nat × Tens
     runSeeded G κ fuel ps σ1
 
 theorem C10_additive [AddLaws S] {G : Graph S} (sem : Sem G) (wf : G.WF) (lawful : G.Lawful) (ℓ j fuel : Nat)
+    (hkeep : ∀ n s, s ∈ G.kids n → s.tracked = true → s.node = ℓ → ((G.kids ℓ).isEmpty || s.keep) = stores sem ℓ)
     (ps : List (Nat × Tensor S)) (hfuel : ∀ p ∈ ps, p.1 < fuel) (hshape : ∀ p ∈ ps, Shaped (sem.dimsOf p.1) p.2) :
     ∀ (σ σ' : EState S), σ.Clean → (∀ g, σ.grad ℓ = some g → Shaped (sem.dimsOf ℓ) g) →
       runSeeded G sem.κ fuel ps σ = .ok σ' →
@@ -99,7 +100,7 @@ theorem C10_additive [AddLaws S] {G : Graph S} (sem : Sem G) (wf : G.WF) (lawful
       simp only [h1] at hr
       have hx := hshape (root, x) (by simp)
       have hf := hfuel (root, x) (by simp)
-      have hps := backward_pathsum sem ℓ j wf lawful fuel root hf x.dims (some x) { σ with log := [] } σ1 hc rfl hg x rfl hx h1
+      have hps := backward_pathsum sem ℓ j wf hkeep lawful fuel root hf x.dims (some x) { σ with log := [] } σ1 hc rfl hg x rfl hx h1
       have hc1 := (backward_counts G wf lawful fuel root hf x.dims (sem.κ root) (some x) { σ with log := [] } σ1 hc rfl h1).1
       obtain ⟨e2, hc2⟩ := ih (fun p hp => hfuel p (by simp [hp])) (fun p hp => hshape p (by simp [hp])) σ1 σ' hc1 hps.2 hr
       refine ⟨?_, hc2⟩
